@@ -4,7 +4,8 @@ Decides: (a) schema: every value the builders put into a CAM / VAM / DENM dictio
 stores, builder return values, lists grown element by element, names selected from constant tables, and dictionaries
 that reach a message by reference through a request object (the DENM event position; each hop of that alias flow is
 re-established on every run) - fits the ASN.1 type at that position: shape (dict / (name, value) tuple / (bytes, bits)
-pair / enumerator string), member and alternative names, enumerators, mandatory members; range: for INTEGERs the range
+pair / enumerator string), member and alternative names, enumerators, mandatory members, and no member of a literal in the
+message modules is a module-level mutable constant (one object shared by all messages, written in place); range: for INTEGERs the range
 reachable from the quantifier's input ranges (interval interpretation with guard refinement; a value computed from the
 inputs with no bound at all fails); (b) unit: the scaling coefficient of position / speed / heading values, also for stores into
 a dictionary that reaches the message by reference and through pure one-argument helpers, which are interpreted on
@@ -487,6 +488,44 @@ def report_keys(ctx):
         raise AnalysisError(f"C11: only {n} report field reads found (confirmed: > 30)")
 
 
+def fresh_literals(ctx):
+    """A message dictionary is mutated in place by the fullfill_* methods.  Every container that a builder puts into a
+    message (member of a dict / tuple / list literal in the CAM, VAM, DENM and clustering modules) is therefore built afresh
+    by that call: a member that is a module-level mutable constant (`"altitude": _ALTITUDE_UNAVAILABLE` with the constant a
+    dict) is ONE object shared by every message of the process - a value written for one report shows up in the next message
+    built from a report that lacks the field."""
+    P = ctx.prog
+    n = 0
+    DENMM = "facilities.decentralized_environmental_notification_service.denm_transmission_management"
+    CLU = "facilities.vru_awareness_service.vru_clustering"
+    for modname in (CAMM, VAMM, DENMM, CLU):
+        m = P.module(modname)
+        for fi in P.iter_funcs():
+            if fi.module is not m:
+                continue
+            shared = []
+            for lit in [x for x in ast.walk(fi.node) if isinstance(x, (ast.Dict, ast.Tuple, ast.List))]:
+                members = list(lit.values) if isinstance(lit, ast.Dict) else list(lit.elts)
+                for v in members:
+                    if not isinstance(v, (ast.Name, ast.Attribute)) or not isinstance(getattr(v, "ctx", None), ast.Load):
+                        continue
+                    n += 1
+                    r = P.resolve_name(fi.module, v.id) if isinstance(v, ast.Name) else P.resolve_expr_entity(fi.module, v)
+                    if isinstance(r, tuple) and r[0] == "const" and isinstance(r[2], (ast.Dict, ast.List, ast.Set, ast.DictComp, ast.ListComp)):
+                        if isinstance(v, ast.Name) and v.id in {a.arg for a in fi.node.args.args} | \
+                                {x.id for x in ast.walk(fi.node) if isinstance(x, ast.Name) and isinstance(x.ctx, ast.Store)}:
+                            continue                  # a local of that name shadows the constant
+                        shared.append((dotted(v), v.lineno))
+            if shared:
+                ctx.ob("C11.schema", fi.short(), f"fresh-container:{shared[0][0]}", False,
+                       f"the module-level mutable constant `{shared[0][0]}` is put into a message value by reference (line {shared[0][1]}): the "
+                       "fullfill_* methods write into message dictionaries in place, so every message of the process shares this object and a "
+                       "value stored for one report leaks into messages built from reports that lack the field", fi.loc)
+    ctx.extra["literal_members_by_name"] = n
+    ctx.ob("C11.schema", "message builders", "fresh-containers", True,
+           f"{n} name-valued members of dict / tuple / list literals in the message modules examined: none is a module-level mutable constant", "")
+
+
 def run(ctx):
     ctx.explanation = (
         "Schema conformance (K9) and interval interpretation (K10). The ASN.1 modules the repository ships as string constants "
@@ -522,6 +561,7 @@ def run(ctx):
     gdt_rules(ctx)
     reception_clock(ctx)
     report_keys(ctx)
+    fresh_literals(ctx)
     ctx.floor("C11.gdt", 6)
     ctx.floor("C11.schema", 325, "typed positions")
     ctx.floor("C11.range", 120, "computed integers")
